@@ -72,6 +72,15 @@ def cases(tier, rng):
     for cp, bp, ty, lim in ([("keep", "keep", "all", 0), ("lower", "keep", "CNAME", 0), ("keep", "keep", "all", 1500), ("keep", "keep", "CNAME", -1500)]
                             + ([("keep", "strip", "TXT", 0), ("keep", "keep", "MX", 4096), ("keep", "keep", "all", -4096)] if thorough else [])):
         cs.append(mk(cp, bp, ty, lim, 2000 + rng.below(100), "both-ways"))
+    # tunnel domains so long that the longer test patterns of the negotiation no longer fit into a name (the request cannot be encoded: the
+    # codec is not usable and the negotiation goes on); implementation only - the model's domain is the harness's fixed one
+    for cp, bp, lim, dl in ([("keep", "strip", 0, 150), ("keep", "drop", 0, 190), ("keep", "strip", 1500, 160)]
+                            + ([("lower", "strip", 0, 175), ("keep", "strip", -2048, 150), ("keep", "keep", 0, 230), ("alt", "drop", 900, 205)] if thorough else [])):
+        c = mk(cp, bp, "all", lim, rng.below(100), "long-domain")
+        c["line"] += " %d" % dl
+        c["key"] = c["line"]
+        c["model"] = False
+        cs.append(c)
     for _ in range(60 if thorough else 8):
         k = rng.range(1, 4)
         ts = ",".join(sorted(set(rng.choice(TYPES) for _ in range(k))))
